@@ -35,6 +35,10 @@ def cells(tier):
         for op in ('roItemReplace', 'EAItemReplace'):
             for k in kk:
                 out.append(mk(op, N, k=k, timeout=T))
+        if tier == 'quick':
+            # carried elements do not fork: three of them are as cheap as two
+            for op in ('roItemReplace', 'EAItemReplace', 'roItemInsert', 'EAItemInsert'):
+                out.append(mk(op, N, k=3, gap=None, timeout=T))
         for op in ('roItemDelete', 'EAItemDelete'):
             for k in kk:
                 out.append(mk(op, N, k=k, timeout=T))
